@@ -1830,6 +1830,16 @@ class Rule(metaclass=LogicalType):
             )
 
     @classmethod
+    def _read_items(cls, value, context: RuntimeContext, pairs: bool = False) -> list:
+        # the items of the (converted) container are read once, here: the converter hands back an instance of a
+        # list / tuple / dict *subclass* unchanged, and when its own __iter__ / items() / __len__ raises,
+        # that is a value that does not parse - not an exception of the parser loops below
+        try:
+            return list(value.items()) if pairs else list(value)
+        except Exception as e:
+            context.handle_error(exc.ParseError(type=cls, origin_exc=e), force_raise=True)
+
+    @classmethod
     def _parse_contains(cls, value, context: RuntimeContext):
         # validate max_contains and min_contains as well
         if not cls.contains:
@@ -1838,7 +1848,7 @@ class Rule(metaclass=LogicalType):
         min_contains = None if unprovided(cls.min_contains) else cls.min_contains
         max_contains = None if unprovided(cls.max_contains) else cls.max_contains
         contains = 0
-        for i, item in enumerate(value):
+        for i, item in enumerate(cls._read_items(value, context)):
             with context.enter(route=i) as item_context:
                 try:
                     item_context.transformer(item, cls.contains)
@@ -1928,6 +1938,7 @@ class Rule(metaclass=LogicalType):
     def _parse_tuple_args(cls, value: tuple, context: RuntimeContext):
         result = []
         options = context.options
+        value = cls._read_items(value, context)
 
         if len(value) > len(cls.__args__):
             if options.addition is False or options.no_data_loss:
@@ -1989,7 +2000,7 @@ class Rule(metaclass=LogicalType):
         arg_transformer = cls.__arg_transformers__[0]
         options = context.options
 
-        for i, item in enumerate(value):
+        for i, item in enumerate(cls._read_items(value, context)):
             with context.enter(route=i) as arg_context:
                 try:
                     result.append(
@@ -2027,7 +2038,7 @@ class Rule(metaclass=LogicalType):
 
         options = context.options
 
-        for _key, _val in value.items():
+        for _key, _val in cls._read_items(value, context, pairs=True):
             try:
                 key_route = f"{_key}<key>"
             except Exception:  # noqa: a key that cannot even be rendered still gets a route and an error item
